@@ -12,7 +12,8 @@ FLAGSETS = {'0': 0, 'G': PL.G, 'G|D': PL.G | PL.D, 'G|E': PL.G | PL.E, 'G|L': PL
 
 
 def run(chk, tier, seed):
-    pats = [P.render(p) for p in globrun.small_patterns()] + ['**/.*', '.*', '**/a', '**/d/**/a', '**/**/a', 'a', '*/a', './a', 'd/./a', '{a,d/a}', '*.txt|a', '?(a)', '?(a)/a', '*(a)/*', 'd/?(a)', '@(a|)', '+(a)']
+    pats = [P.render(p) for p in globrun.small_patterns()] + ['**/.*', '.*', '**/a', '**/d/**/a', '**/**/a', 'a', '*/a', './a', 'd/./a', '{a,d/a}', '*.txt|a', '?(a)', '?(a)/a', '*(a)/*', 'd/?(a)', '@(a|)', '+(a)',
+                                                                 'e/**/a', 'a/**/a', 's/**/y', 's/**/y2', 's/**', 'e/**']          # a globstar segment that is not the first one, matched below the first level
     fsets = ['G', 'G|D', 'G|E', 'G|SD|D', 'G|Q', 'GL|E'] if tier == 'quick' else list(FLAGSETS)
     specs = {k: trees.NAMED[k] for k in (('basic', 'links') if tier == 'quick' else trees.NAMED)}
     rnd = random.Random(seed * 19 + 2)
@@ -32,7 +33,7 @@ def run(chk, tier, seed):
             n += 1
             chk.case(key=(r['tree'], r['pattern'], r['flags']), nontrivial=r['n'] > 0)
             for kind, w in r['bad']:
-                chk.violation(dict(obligation='C16.bounded.' + kind, tree=r['tree'], pattern=r['pattern'], fl=r['fl'], witness=w),
+                chk.violation(dict(obligation='C16.bounded.' + kind, tree=r['tree'], pattern=r['pattern'], fl=r['fl'], witness=w, via_link=str(r.get('via_link', {}).get(w, ''))),
                               f'pathlib on tree {r["tree"]}, pattern {r["pattern"]!r}, flags {r["fl"]}: {kind}: {w}',
                               f"import sys, os; sys.path.insert(0, {REPO!r}); sys.path.insert(0, '/verif')\nfrom wcmatch import pathlib, glob\nfrom vlib.harness import trees\n"
                               f"with trees.Tree({specs[r['tree']]!r}) as t:\n    os.chdir(t.root)\n    print(sorted(str(x) for x in pathlib.Path('.').rglob({r['pattern']!r}, flags={r['flags']})))\n"
